@@ -242,7 +242,7 @@ fn build_hostile<M: ZooMsg + ?Sized>(sc: &Scenario, dec: &mut Decider, stats: &m
             let (fs, fe) = bounds[fi];
             let span = (fe - fs).min(2 * M::ALIGN.max(4) + 4).max(1);
             let at = fs + dec.below(St::Bytes, span as u32) as usize;
-            let width = [1usize, 2, 4][dec.below(St::Bytes, 3) as usize].min(fe - at).max(1);
+            let width = [1usize, 2, 4, 8][dec.below(St::Bytes, 4) as usize].min(fe - at).max(1);
             let pat: u8 = [0xFF, 0x7F, 0x80, 0xFE, 0x01, 0x40][dec.below(St::Bytes, 6) as usize];
             let mut first = s.len();
             for i in 0..width {
